@@ -403,6 +403,14 @@ def r4_actions(ctx, F):
                     fe += fe_ if rel_ == 'eq' else te_       # edges on which prev_channel != current channel
             if cmp_:
                 oth = sw.edges_not('Ordered')
+                # the network kind may be cached in a flag before the loop (`let is_ordered = matches!(..)`)
+                from common import variant_flags
+                for l_, m_ in variant_flags(b, 'init_network').items():
+                    ov = True if 'Ordered' in m_[True] else False if 'Ordered' in m_[False] else None
+                    if ov is None:
+                        continue
+                    oth = oth + [e for s2 in b.switches if s2.kind == 'bool' and s2.on.kind == 'local' and s2.on.key == l_
+                                 for e in s2.edges_for(not ov)]
                 if fe and all(b.edges_dominate(fe + oth, i) for (i, st) in sites['Deliver']):
                     okh = True
     ctx.check(okh, rule, 'ordered-one-deliver-per-channel', b,
